@@ -432,3 +432,33 @@ Section TreeFacts.
       apply merge_time_sorted; auto.
   Qed.
 End TreeFacts.
+
+(* ------------------------------------------------------------------ Release after every source reported EOF *)
+(* every mixer of the tree has reported EOF (st = 3: both of its sources did) *)
+Fixpoint all_eof (t : mtree) : Prop :=
+  match t with
+  | MLeaf _ _ => True
+  | MNode a b st _ _ _ _ _ => all_eof a /\ all_eof b /\ st = 3%nat
+  end.
+Fixpoint dir (d : bool) (t : mtree) : Prop :=
+  match t with
+  | MLeaf _ _ => True
+  | MNode a b _ _ _ _ _ bk' => dir d a /\ dir d b /\ bk' = d
+  end.
+
+(* Release then forgets every selection and every eof flag, in nested mixers too: the tree is as newly built *)
+Lemma release_all_eof d : forall t, all_eof t -> dir d t -> fresh d (mx_release t) /\ mx_leaves (mx_release t) = mx_leaves t.
+Proof.
+  induction t as [g l|a IHa b IHb st e1 e2 le1 le2 bk']; intros E D; [cbn; auto|].
+  cbn in E, D. destruct E as (Ea & Eb & ->). destruct D as (Da & Db & ->).
+  destruct (IHa Ea Da) as (Fa & La). destruct (IHb Eb Db) as (Fb & Lb).
+  cbn [mx_release fresh mx_leaves Nat.eqb]. rewrite La, Lb. auto 10.
+Qed.
+
+Lemma map_leaves_fresh d h : forall t, fresh d t ->
+  fresh d (mx_map_leaves h t) /\ mx_leaves (mx_map_leaves h t) = map (fun s => (fst s, h (fst s) (snd s))) (mx_leaves t).
+Proof.
+  induction t as [g l|a IHa b IHb st e1 e2 le1 le2 bk']; intros F; [cbn; auto|].
+  cbn in F. destruct F as (Fa & Fb & -> & -> & -> & ->). destruct (IHa Fa) as (F1 & L1). destruct (IHb Fb) as (F2 & L2).
+  cbn [mx_map_leaves mx_leaves fresh]. rewrite L1, L2, map_app. auto 10.
+Qed.
